@@ -400,6 +400,34 @@ Definition expectation_ok (evs dels : list event) (x : sx) : bool :=
                                                             | _ => false end) (evs ++ dels))) <=? n)%N
         | None => false
         end
+      else if sx_is "max-line-prefixes" t then
+        (* no reply line carries more than n "<address> " prefixes in front of its text *)
+        match sx_N a with
+        | Some n =>
+            forallb (fun l =>
+                       let fix count (fuel : nat) (t : bytes) : N :=
+                         match fuel with
+                         | O => 0
+                         | S fuel' =>
+                             match t with
+                             | "<" :: r =>
+                                 match cut_byte ">" r with
+                                 | Some (_, " " :: r') => 1 + count fuel' r'
+                                 | _ => 0
+                                 end
+                             | _ => 0
+                             end
+                         end%N in
+                       (* skip "ddd" sep and an enhanced code "d.d.d " if present *)
+                       let body := skipn 4 l in
+                       let body := match body with
+                                   | a1 :: "." :: b1 :: "." :: c1 :: " " :: r =>
+                                       if is_digit a1 && is_digit b1 && is_digit c1 then r else body
+                                   | _ => body
+                                   end in
+                       (count 8%nat body <=? n)%N) (wire_lines (all_wire evs))
+        | None => false
+        end
       else if sx_is "max-250" t then
         match sx_N a with
         | Some n => (N.of_nat (List.length (filter (fun c => (c =? 250)%N) codes)) <=? n)%N
